@@ -171,7 +171,24 @@ func ruleL33(p *Prog, r *Report) {
 		})
 		for name, fr := range fields {
 			n++
-			isReset := func(z ssa.Instruction) bool {
+			var isReset func(z ssa.Instruction) bool
+			isReset = func(z ssa.Instruction) bool {
+				// a reset helper of the same receiver that resets the field on every path
+				if c, ok := z.(*ssa.Call); ok {
+					g := c.Call.StaticCallee()
+					if g != nil && g != f && g.Pkg == p.RootSSA && recvNamed(g) != nil && recvNamed(g) == recvNamed(f) && len(g.Blocks) > 0 && len(c.Call.Args) > 0 && sameValue(c.Call.Args[0], f.Params[0]) {
+						inner := func(y ssa.Instruction) bool {
+							st, ok := y.(*ssa.Store)
+							if !ok {
+								return false
+							}
+							w, ok := asFieldAddr(st.Addr)
+							return ok && w.Field == name && w.Owner == fr.Owner && sameValue(w.Base, g.Params[0]) && isNilConst(canon(st.Val))
+						}
+						return successReturnAvoiding(g, nil, inner) == nil
+					}
+					return false
+				}
 				st, ok := z.(*ssa.Store)
 				if !ok {
 					return false
